@@ -138,6 +138,7 @@ func VerifC13ParseKey() {
 		return
 	}
 	vf.Reach("parsed")
+	verifAcceptedKeyIsWhatWasWritten(s, k)
 	sc, serr := NewScale(k)
 	if serr != nil {
 		vf.Assert("no-scale-on-error", sc == nil)
@@ -148,4 +149,37 @@ func VerifC13ParseKey() {
 	vf.Assert("parsed-key-has-a-letter", l >= 0)
 	vf.Assert("parsed-supported-key-is-legal", spec.HasScale(l, verifAccNum(k.Accidental), k.Minor))
 	vf.Reach("end")
+}
+
+// verifKeySpelling reads s as a key spelling in the documented form, the whole text and nothing
+// else: one letter A..G, an optional # or b, an optional m. Letters are numbered C=0 .. B=6.
+func verifKeySpelling(s string) (letter, acc int, minor, ok bool) {
+	if len(s) == 0 || s[0] < 'A' || s[0] > 'G' {
+		return 0, 0, false, false
+	}
+	letter = (int(s[0]-'A') + 5) % 7 // A→5, B→6, C→0 …
+	i := 1
+	if i < len(s) && s[i] == '#' {
+		acc = 1
+		i++
+	} else if i < len(s) && s[i] == 'b' {
+		acc = -1
+		i++
+	}
+	if i < len(s) && s[i] == 'm' {
+		minor = true
+		i++
+	}
+	return letter, acc, minor, i == len(s)
+}
+
+// verifAcceptedKeyIsWhatWasWritten: a key text that is accepted means exactly the key it
+// spells; text that is not a key spelling (trailing or leading characters, other signs) is
+// refused rather than read as whatever key-like fragment it contains.
+func verifAcceptedKeyIsWhatWasWritten(s string, k Key) {
+	l, a, m, ok := verifKeySpelling(s)
+	vf.Assert("accepted-key-text-is-a-key-spelling", ok)
+	if ok {
+		vf.Assert("accepted-key-is-the-key-written", verifLetter(k.Name) == l && verifAccNum(k.Accidental) == a && k.Minor == m)
+	}
 }
